@@ -124,6 +124,16 @@ class Sut:
         return exc, self.rec.take()
 
 
+def poke_formatter(fmt):
+    """Setter calls the formatter has to reject. A rejected call configures nothing: what was configured last stays in force."""
+    for name, args in (("set_comment_symbols", ("",)), ("set_comment_symbols", ("   ",)), ("set_decimal_places", (-1,)),
+                       ("set_axis_label", ("x", " ")), ("set_axis_label", ("q", "A"))):
+        try:
+            getattr(fmt, name)(*args)
+        except Exception:                  # noqa: BLE001  (ValueError / TypeCheckError; acceptance is not this check's business)
+            pass
+
+
 def decode_lines(chunks, ending="\n"):
     """Each chunk the writer received must be exactly one terminated line."""
     lines = []
